@@ -9,7 +9,7 @@
 From RU Require Import Base.Prelude Base.Utf8 Model.AsciiSet Gen.Tables Model.PercentEncoding
   Model.HostT Model.UrlRecord Model.Parser Model.Setters Model.WF
   Proofs.ListN Proofs.C03_WF Proofs.C06_List Proofs.C06_WFI Proofs.C06_Tail Proofs.C06_Steps Proofs.C06_Suffix
-  Proofs.C06_Front Proofs.C06_Port Proofs.C06_Host Proofs.C03_ReachParts.
+  Proofs.C06_Front Proofs.C06_Port Proofs.C06_Host Proofs.C06_FragQuery Proofs.C06_Main Proofs.C03_ReachParts.
 
 Ltac splits := repeat match goal with |- _ /\ _ => split end.
 
@@ -464,3 +464,123 @@ Proof using HF.
 Qed.
 
 End QHost2.
+
+(* ---------- quirks::set_pathname ---------- *)
+(* on an opaque path nothing happens; otherwise it is Url::set_path with the argument, or with '/' in front
+   of it, so the four set_path theorems of C06 (C06_frame_path, _noauth, _marker and their exactness
+   companions) apply to it verbatim *)
+Definition q_pathname_arg (st : scheme_type) (hh : bool) (v : list N) : list N :=
+  if (match v with 47 :: _ => true | _ => false end) || (st_is_special st && (match v with 92 :: _ => true | _ => false end))
+  then v
+  else if st_is_special st || negb (match v with [] => true | _ => false end) || negb hh then 47 :: v else v.
+
+Theorem q_set_pathname_eval dbg u v : wf_b u = true ->
+  exists sch, scheme u = Some sch
+    /\ q_set_pathname dbg u v
+       = if negb (byte_eqb (ser u) (scheme_end u + 1) 47) then Some u
+         else set_path dbg u (q_pathname_arg (scheme_type_of sch) (has_host u) v).
+Proof.
+  intros W. exists (piece u (pidx u BeforeScheme) (pidx u AfterScheme)). split; [apply (scheme_eval u W)|].
+  unfold q_set_pathname. rewrite (cannot_be_a_base_eval u W). cbn [bindo].
+  destruct (negb (byte_eqb (ser u) (scheme_end u + 1) 47)); [reflexivity|].
+  unfold u_scheme_type. rewrite (scheme_eval u W). cbn [bindo]. unfold q_pathname_arg.
+  destruct ((match v with 47 :: _ => true | _ => false end)
+            || (st_is_special (scheme_type_of (piece u (pidx u BeforeScheme) (pidx u AfterScheme)))
+                && (match v with 92 :: _ => true | _ => false end))); [reflexivity|].
+  destruct (st_is_special (scheme_type_of (piece u (pidx u BeforeScheme) (pidx u AfterScheme)))
+            || negb (match v with [] => true | _ => false end) || negb (has_host u)); reflexivity.
+Qed.
+
+Lemma q_pathname_arg_cases st hh v : q_pathname_arg st hh v = v \/ q_pathname_arg st hh v = 47 :: v.
+Proof.
+  unfold q_pathname_arg.
+  destruct ((match v with 47 :: _ => true | _ => false end) || (st_is_special st && (match v with 92 :: _ => true | _ => false end)));
+    [left; reflexivity|].
+  destruct (st_is_special st || negb (match v with [] => true | _ => false end) || negb hh); [right | left]; reflexivity.
+Qed.
+
+Lemma q_pathname_arg_usv st hh v : usv_list v -> usv_list (q_pathname_arg st hh v).
+Proof.
+  intros Hv. destruct (q_pathname_arg_cases st hh v) as [->| ->]; [exact Hv|].
+  constructor; [|exact Hv]. unfold is_usv. lia.
+Qed.
+
+(* ================= assembled: the quirks setters that write host / port / path ================= *)
+Section QuirksAll.
+Variable dbg : bool.
+Variable hp hpo : list N -> result host.
+Variable hd : host -> list N.
+
+Theorem quirks_all u : host_fns_ok hp hpo hd -> wfh u ->
+  (has_authority_b u = false -> path_start u = scheme_end u + 1) ->
+  (forall v, exists r, q_set_port dbg u v = Some r)
+  /\ (forall v u', q_set_port dbg u v = Some (u', SOk) ->
+        wfh u' /\ same_ids dbg u u' /\ same_back dbg u u'
+        /\ exists sch rem, scheme u = Some sch /\ parse_port CSetter (default_port sch) v = POk (port u', rem))
+  /\ (forall v u', q_set_hostname dbg hp hpo hd u v = Some (u', SOk) ->
+        exists sch h, scheme u = Some sch
+          /\ ((scheme_type_of sch = STFile /\ v = [] /\ h = HDomain []
+               /\ ((has_authority_b u = true -> port u = None) -> host_set_post dbg hd u u' h))
+              \/ ((exists rem, parse_host hp hpo (scheme_type_of sch) v = POk (h, rem))
+                  /\ host_set_post dbg hd u u' h)))
+  /\ (forall v u', q_set_host dbg hp hpo hd u v = Some (u', SOk) ->
+        exists sch h, scheme u = Some sch
+          /\ ((scheme_type_of sch = STFile /\ v = [] /\ h = HDomain []
+               /\ ((has_authority_b u = true -> port u = None) -> host_set_post dbg hd u u' h))
+              \/ (exists rem, parse_host hp hpo (scheme_type_of sch) v = POk (h, rem)
+                  /\ match q_host_port sch rem with
+                     | None => host_set_post dbg hd u u' h
+                     | Some np => host_port_post dbg hd u u' h np
+                     end)))
+  /\ (forall v u', q_set_pathname dbg u v = Some u' ->
+        if is_opaque_b u then u' = u
+        else exists p, (p = v \/ p = 47 :: v) /\ (usv_list v -> usv_list p) /\ set_path dbg u p = Some u').
+Proof.
+  intros HF [W HT] X2. splits.
+  - intros v. destruct (q_set_port_ok dbg u v W HT) as (u' & st & E & _). exists (u', st). exact E.
+  - intros v u' E. destruct (q_set_port_ok dbg u v W HT) as (u'' & st & E' & _ & Hok).
+    rewrite E in E'. inversion E'; subst u'' st. destruct (Hok eq_refl) as (W' & HT' & I & B & P).
+    split; [split; assumption|]. splits; assumption.
+  - intros v u' E. exact (q_set_hostname_post dbg hp hpo hd HF u v u' W X2 E).
+  - intros v u' E. exact (q_set_host_post dbg hp hpo hd HF u v u' W X2 E).
+  - intros v u' E. destruct (q_set_pathname_eval dbg u v W) as (sch & _ & Ev). rewrite Ev in E. clear Ev.
+    unfold is_opaque_b. destruct (negb (byte_eqb (ser u) (scheme_end u + 1) 47)); [inversion E; reflexivity|].
+    exists (q_pathname_arg (scheme_type_of sch) (has_host u) v).
+    split; [apply q_pathname_arg_cases|]. split; [apply q_pathname_arg_usv | exact E].
+Qed.
+
+End QuirksAll.
+
+(* ---------- non-vacuity: a host function instance and one call of each setter ---------- *)
+(* texts over letters and digits (and the empty text) are hosts, displayed as they are *)
+Definition qx_hp (s : list N) : result host := if forallb is_alnum s then Ok (HDomain s) else Err InvalidDomainCharacter.
+Definition qx_hd (h : host) : list N := match h with HDomain d => d | _ => [] end.
+
+Lemma qx_fns_ok : host_fns_ok qx_hp qx_hp qx_hd.
+Proof.
+  assert (forall s h, qx_hp s = Ok h -> host_disp_ok qx_hd h) as G.
+  { intros s h. unfold qx_hp. destruct (forallb is_alnum s) eqn:E; [|discriminate]. intros H. inversion H; subst.
+    unfold host_disp_ok. destruct s as [|c r]; [reflexivity|]. cbn [hi_of_host qx_hd]. exists c, r. split; [reflexivity|].
+    cbn [forallb] in E. apply andb_true_iff in E. destruct E as [E _].
+    unfold is_alnum, is_alpha, is_upper, is_lower, is_digit in E. lia. }
+  split; [exact G | split; [exact G | reflexivity]].
+Qed.
+
+(* "a://h:80/p?q#f" *)
+Definition qx_u : url := mkUrl [97;58;47;47;104;58;56;48;47;112;63;113;35;102] 1 4 4 5 HI_Domain (Some 80) 8 (Some 10) (Some 12).
+
+Example quirks_inhabited :
+  wfh qx_u /\ (has_authority_b qx_u = false -> path_start qx_u = scheme_end qx_u + 1)
+  /\ (exists u', q_set_host true qx_hp qx_hp qx_hd qx_u [120; 58; 56; 49] = Some (u', SOk)
+                  /\ ser u' = [97;58;47;47;120;58;56;49;47;112;63;113;35;102])
+  /\ (exists u', q_set_hostname true qx_hp qx_hp qx_hd qx_u [121; 122] = Some (u', SOk)
+                  /\ ser u' = [97;58;47;47;121;122;58;56;48;47;112;63;113;35;102])
+  /\ (exists u', q_set_port true qx_u [57] = Some (u', SOk) /\ ser u' = [97;58;47;47;104;58;57;47;112;63;113;35;102])
+  /\ (exists u', q_set_pathname true qx_u [122] = Some u' /\ ser u' = [97;58;47;47;104;58;56;48;47;122;63;113;35;102])
+  /\ (exists u', set_host true qx_hp qx_hp qx_hd qx_u (Some [120; 58; 49]) = Some (u', SOk)
+                  /\ ser u' = [97;58;47;47;120;58;56;48;47;112;63;113;35;102]).
+Proof.
+  split; [split; [vm_compute; reflexivity | intros _; vm_compute; repeat split; discriminate]|].
+  split; [intros H; vm_compute in H; discriminate|].
+  repeat split; eexists; split; vm_compute; reflexivity.
+Qed.
